@@ -572,11 +572,11 @@ theorem inv_stepCore (s : Stream) (op : Op) (hi : Inv s) (hs : invSafe s op = tr
       rw [mem_occ] at hm
       unfold Inv; simp only; omega
   case bytealign =>
-    cases hb : setBitPos s (s.pos + (8 - s.pos % 8) % 8) with
-    | mk s1 r1 =>
-      have := setBitPos_inv s (s.pos + (8 - s.pos % 8) % 8) hi'
-      rw [hb] at this
-      cases r1 <;> exact this
+    apply inv_ite; · intro _; exact hi'
+    intro _
+    apply inv_ite; · intro _; exact hi'
+    intro _
+    unfold Inv Stream.len at *; simp only; omega
   case setPos n => exact setBitPos_inv s n hi'
   case getBytePos => apply inv_ite <;> intro _ <;> exact hi'
   case setBytePos n => exact setBitPos_inv s _ hi'
@@ -691,10 +691,6 @@ theorem step_eq_core (s : Stream) (op : Op) (h : op.isMutator = true → s.mutab
   · rfl
 
 /-! ### streams among returned values start at 0 -/
-
-def Val.posZero : Val → Prop
-  | .stream _ p => p = 0
-  | _ => True
 
 theorem decode_posZero (k : Kind) (b : Bits) (v : Val) (h : decode k b = .ok v) : v.posZero := by
   cases k <;> simp only [decode] at h
@@ -890,5 +886,290 @@ theorem readSeq_iff (ts : List Tok) (s : Stream) (hi : Inv s)
             rw [hri]
             obtain ⟨vs, fp⟩ := y
             simpa using h
+
+theorem toDTs_known (ts : List Tok) (ds : List DT) (ho : ∀ t ∈ ts, t.isOpen = false) (h : toDTs ts = .ok ds) :
+    ∀ d ∈ ds, ∃ r, d = DT.known r := by
+  induction ts generalizing ds with
+  | nil => simp only [toDTs] at h; cases h; intro d hd; cases hd
+  | cons t rest ih =>
+    simp only [toDTs] at h
+    cases hd : t.toDT with
+    | error e => rw [hd] at h; cases h
+    | ok d =>
+      rw [hd] at h
+      cases hds : toDTs rest with
+      | error e => rw [hds] at h; cases h
+      | ok ds' =>
+        rw [hds] at h; cases h
+        intro d' hd'
+        cases hd' with
+        | head => exact toDT_known_of_not_open t _ (ho t (List.mem_cons_self ..)) hd
+        | tail _ hm => exact ih ds' (fun t ht => ho t (List.mem_cons_of_mem _ ht)) hds d' hm
+
+/-! ### readto -/
+
+theorem validateSlice_pos (s : Stream) (hi : Inv s) :
+    validateSlice s.bits.length (some s.pos) none = .ok (s.pos.toNat, s.bits.length) := by
+  obtain ⟨h0, h1⟩ := hi
+  unfold validateSlice
+  simp only [if_neg (show ¬ s.pos < 0 by omega)]
+  rw [if_pos (by omega)]
+  simp
+
+theorem readto_cases (s : Stream) (pat : Bits) (al : Bool) (hi : Inv s) :
+    stepCore s (.readto pat al) =
+      if pat.isEmpty then (s, .err .value) else
+      match (occ s.bits pat s.pos.toNat s.bits.length al).head? with
+      | none => (s, .err .read)
+      | some p => ({ s with pos := (p : Int) + pat.length },
+                   .val (.stream (pySlice s.bits s.pos ((p : Int) + pat.length)) 0)) := by
+  simp only [stepCore, findCommon, validateSlice_pos s hi, pick, Bool.false_eq_true, if_false]
+  by_cases hp : pat.isEmpty = true
+  · simp [hp]
+  · have hp' : pat.isEmpty = false := by simpa using hp
+    simp only [hp', Bool.false_eq_true, if_false]
+    cases (occ s.bits pat s.pos.toNat s.bits.length al).head? with
+    | none => rfl
+    | some p => rfl
+
+theorem readto_ok' (s s' : Stream) (pat : Bits) (al : Bool) (v : Val) (hi : Inv s)
+    (h : step s (.readto pat al) = (s', .val v)) :
+    ∃ p : Nat, (occ s.bits pat s.pos.toNat s.bits.length al).head? = some p
+      ∧ s' = { s with pos := (p : Int) + pat.length }
+      ∧ v = .stream ((s.bits.drop s.pos.toNat).take (p + pat.length - s.pos.toNat)) 0 := by
+  rw [step_eq_core s _ (by intro h; cases h), readto_cases s pat al hi] at h
+  by_cases hp : pat.isEmpty = true
+  · simp [hp] at h
+  · have hp' : pat.isEmpty = false := by simpa using hp
+    simp only [hp', Bool.false_eq_true, if_false] at h
+    cases ho : (occ s.bits pat s.pos.toNat s.bits.length al).head? with
+    | none => rw [ho] at h; cases h
+    | some p =>
+      rw [ho] at h
+      simp only [Prod.mk.injEq, Res.val.injEq] at h
+      have hm := head?_mem' _ _ ho
+      rw [mem_occ] at hm
+      refine ⟨p, rfl, h.1.symm, ?_⟩
+      rw [← h.2, pySlice_eq' s.bits s.pos _ hi.1 hi.2 (by omega)]
+      have := hi.1
+      congr 2; omega
+
+theorem readto_fail' (s s' : Stream) (pat : Bits) (al : Bool) (e : Err)
+    (h : step s (.readto pat al) = (s', .err e)) : s' = s := by
+  rw [step_eq_core s _ (by intro h; cases h)] at h
+  simp only [stepCore] at h
+  rcases findCommon_cases s pat (some s.pos) none al false with ⟨h1, hne⟩ | ⟨x, y, p, _, _, hf⟩
+  · cases hf : findCommon s pat (some s.pos) none al false with
+    | mk s1 r1 =>
+      rw [hf] at h hne
+      cases r1 with
+      | found o => cases o with
+        | none => simp only at h; cases h; rfl
+        | some p => exact absurd rfl (hne p)
+      | err e' => simp only at h; cases h; rfl
+      | val _ => simp only at h; cases h; rfl
+      | vals _ => simp only at h; cases h; rfl
+      | ret _ => simp only at h; cases h; rfl
+      | unit => simp only at h; cases h; rfl
+  · rw [hf] at h; simp only at h; cases h
+
+theorem readto_absent' (s : Stream) (pat : Bits) (al : Bool) (hi : Inv s) (hp : pat ≠ [])
+    (h : occ s.bits pat s.pos.toNat s.bits.length al = []) :
+    step s (.readto pat al) = (s, .err .read) := by
+  rw [step_eq_core s _ (by intro h; cases h), readto_cases s pat al hi]
+  have : pat.isEmpty = false := by cases pat <;> simp_all
+  simp only [this, Bool.false_eq_true, if_false, h, List.head?_nil]
+
+theorem new_pos_zero (s s' : Stream) (op : Op) (p : Int) (h : step s op = (s', .ret (.new p))) : p = 0 := by
+  unfold step at h
+  split at h
+  · cases h
+  · cases op
+    case setProp => rename_i nb _; cases nb <;> simp only [stepCore] at h <;> cases h
+    all_goals (try simp only [stepCore, findCommon, insertAt, replaceWith, setBitPos, runQuery] at h)
+    all_goals (try (repeat' split at h))
+    all_goals (try (cases h <;> rfl))
+
+theorem ret_frame (s s' : Stream) (op : Op) (r : Ret) (h : step s op = (s', .ret r))
+    (hr : const_and_or_self s op = false) : s' = s := by
+  unfold step at h
+  split at h
+  · cases h
+  · cases op
+    case andSelf =>
+      simp only [stepCore] at h
+      simp only [const_and_or_self, Bool.and_eq_false_iff, Bool.not_eq_false', decide_eq_false_iff_not, ne_eq, not_not] at hr
+      rcases hr with hr | hr
+      · rw [hr] at h; simp only [if_true] at h; cases h; rfl
+      · split at h
+        · cases h; rfl
+        · cases h; cases s; simp only at hr; subst hr; rfl
+    case orSelf =>
+      simp only [stepCore] at h
+      simp only [const_and_or_self, Bool.and_eq_false_iff, Bool.not_eq_false', decide_eq_false_iff_not, ne_eq, not_not] at hr
+      rcases hr with hr | hr
+      · rw [hr] at h; simp only [if_true] at h; cases h; rfl
+      · split at h
+        · cases h; rfl
+        · cases h; cases s; simp only at hr; subst hr; rfl
+    case setProp => rename_i nb _; cases nb <;> simp only [stepCore] at h <;> cases h
+    all_goals (try simp only [stepCore, findCommon, insertAt, replaceWith, setBitPos, runQuery] at h)
+    all_goals (try (repeat' split at h))
+    all_goals (try (cases h <;> rfl))
+
+theorem values_pos_zero_core (s s' : Stream) (op : Op) :
+    (∀ v, stepCore s op = (s', .val v) → v.posZero) ∧ (∀ vs, stepCore s op = (s', .vals vs) → ∀ v ∈ vs, v.posZero) := by
+  cases op
+  case read t =>
+    simp only [stepCore]
+    cases hr : readTok s t with
+    | error e => exact ⟨fun v h => (by cases h), fun vs h => (by cases h)⟩
+    | ok r =>
+      obtain ⟨v', np⟩ := r
+      refine ⟨fun v h => ?_, fun vs h => (by cases h)⟩
+      cases h; exact readTok_posZero s t _ _ hr
+  case peek t =>
+    simp only [stepCore]
+    cases hr : readTok s t with
+    | error e => exact ⟨fun v h => (by cases h), fun vs h => (by cases h)⟩
+    | ok r =>
+      obtain ⟨v', np⟩ := r
+      refine ⟨fun v h => ?_, fun vs h => (by cases h)⟩
+      cases h; exact readTok_posZero s t _ _ hr
+  case readlist ts =>
+    simp only [stepCore]
+    cases hr : readList s.bits s.pos ts with
+    | error e => exact ⟨fun v h => (by cases h), fun vs h => (by cases h)⟩
+    | ok r =>
+      obtain ⟨vs', np⟩ := r
+      refine ⟨fun v h => (by cases h), fun vs h => ?_⟩
+      cases h; exact readList_posZero _ _ _ _ _ hr
+  case peeklist ts =>
+    simp only [stepCore]
+    cases hr : readList s.bits s.pos ts with
+    | error e => exact ⟨fun v h => (by cases h), fun vs h => (by cases h)⟩
+    | ok r =>
+      obtain ⟨vs', np⟩ := r
+      refine ⟨fun v h => (by cases h), fun vs h => ?_⟩
+      cases h; exact readList_posZero _ _ _ _ _ hr
+  case setProp nb =>
+    cases nb <;> exact ⟨fun v h => (by simp only [stepCore] at h; cases h), fun vs h => (by simp only [stepCore] at h; cases h)⟩
+  all_goals (constructor <;> intro v h)
+  all_goals (try simp only [stepCore, findCommon, insertAt, replaceWith, setBitPos, runQuery] at h)
+  all_goals (try (repeat' split at h))
+  all_goals (try (cases h <;> trivial))
+
+theorem values_pos_zero (s s' : Stream) (op : Op) :
+    (∀ v, step s op = (s', .val v) → v.posZero) ∧ (∀ vs, step s op = (s', .vals vs) → ∀ v ∈ vs, v.posZero) := by
+  unfold step
+  split
+  · exact ⟨fun v h => (by cases h), fun vs h => (by cases h)⟩
+  · exact values_pos_zero_core s s' op
+
+theorem nonmutator_bits_core (s : Stream) (op : Op) (h : op.isMutator = false) : (stepCore s op).1.bits = s.bits := by
+  cases op <;> simp only [Op.isMutator] at h <;> (try (cases h; done)) <;>
+    simp only [stepCore, findCommon, insertAt, replaceWith, setBitPos, runQuery]
+  all_goals (try (repeat' split))
+  all_goals (try rfl)
+
+theorem nonmutator_bits (s : Stream) (op : Op) (h : op.isMutator = false) : (step s op).1.bits = s.bits := by
+  unfold step
+  split
+  · rfl
+  · exact nonmutator_bits_core s op h
+
+theorem lenRule_self (s : Stream) (r : Res) : lenRule s (s, r) := by
+  unfold lenRule; simp
+
+theorem lenRule_after (s : Stream) (nb : Bits) (r : Res) : lenRule s (afterLenChange s nb, r) := by
+  unfold lenRule afterLenChange; simp
+
+theorem lenRule_ite (s : Stream) (c : Prop) [Decidable c] (x y : Stream × Res) (hx : lenRule s x) (hy : lenRule s y) :
+    lenRule s (if c then x else y) := by
+  split <;> assumption
+
+theorem lenRule_replaceWith (s : Stream) (old new : Bits) (a b c : Option Int) (al : Bool) :
+    lenRule s (replaceWith s old new a b c al) := by
+  unfold replaceWith
+  apply lenRule_ite; · exact lenRule_self ..
+  apply lenRule_ite; · exact lenRule_self ..
+  cases hv : validateSlice s.bits.length a b with
+  | error e => exact lenRule_self ..
+  | ok xy =>
+    obtain ⟨x, y⟩ := xy
+    simp only
+    apply lenRule_ite; · exact lenRule_self ..
+    exact lenRule_after ..
+
+theorem lenRule_del (s : Stream) (hm : s.mutable = true) :
+    (∀ a b c, lenRule s (step s (.delSlice a b c))) ∧ (∀ i, lenRule s (step s (.delIdx i))) := by
+  constructor
+  · intro a b c
+    rw [step_eq_core s _ (fun _ => hm)]; simp only [stepCore]
+    apply lenRule_ite; · exact lenRule_self ..
+    exact lenRule_after ..
+  · intro i
+    rw [step_eq_core s _ (fun _ => hm)]; simp only [stepCore]
+    apply lenRule_ite; · exact lenRule_self ..
+    exact lenRule_after ..
+
+theorem lenRule_set (s : Stream) (hm : s.mutable = true) :
+    (∀ a b v, lenRule s (step s (.setSlice a b v))) ∧ (∀ i v, lenRule s (step s (.setIdxBits i v)))
+      ∧ (∀ i v, lenRule s (step s (.setIdxInt i v))) := by
+  refine ⟨?_, ?_, ?_⟩
+  · intro a b v
+    rw [step_eq_core s _ (fun _ => hm)]; simp only [stepCore]
+    exact lenRule_after ..
+  · intro i v
+    rw [step_eq_core s _ (fun _ => hm)]; simp only [stepCore]
+    apply lenRule_ite; · exact lenRule_self ..
+    exact lenRule_after ..
+  · intro i v
+    rw [step_eq_core s _ (fun _ => hm)]; simp only [stepCore]
+    apply lenRule_ite; · exact lenRule_self ..
+    apply lenRule_ite; · exact lenRule_self ..
+    unfold lenRule; simp
+
+theorem lenRule_replace (s : Stream) (hm : s.mutable = true) :
+    (∀ o n a b c al, lenRule s (step s (.replace o n a b c al))) ∧ (∀ o a b c al, lenRule s (step s (.replaceSelf o a b c al))) := by
+  constructor
+  · intro o n a b c al
+    rw [step_eq_core s _ (fun _ => hm)]; simp only [stepCore]
+    exact lenRule_replaceWith ..
+  · intro o a b c al
+    rw [step_eq_core s _ (fun _ => hm)]; simp only [stepCore]
+    exact lenRule_replaceWith ..
+
+theorem readList_noopen (bits : Bits) (pos : Int) (ts : List Tok) (ho : ∀ t ∈ ts, t.isOpen = false) :
+    readList bits pos ts = (match toDTs ts with
+      | .error e => .error e
+      | .ok ds => readItems bits 0 ds pos) := by
+  unfold readList
+  cases hd : toDTs ts with
+  | error e => rfl
+  | ok ds =>
+    simp only
+    rw [scan_known ds (toDTs_known ts ds ho hd)]
+
+theorem readlist_step_iff (s : Stream) (ts : List Tok) (vs : List Val) (p : Int) :
+    stepCore s (.readlist ts) = ({ s with pos := p }, .vals vs) ↔ readList s.bits s.pos ts = .ok (vs, p) := by
+  simp only [stepCore]
+  cases readList s.bits s.pos ts with
+  | error e => simp
+  | ok r =>
+    obtain ⟨vs', np⟩ := r
+    simp only [Prod.mk.injEq, Stream.mk.injEq, true_and, Res.vals.injEq, Except.ok.injEq]
+    constructor
+    · rintro ⟨h1, h2⟩; exact ⟨h2, h1⟩
+    · rintro ⟨h1, h2⟩; exact ⟨h2, h1⟩
+
+theorem readlist_eq_reads' (s : Stream) (ts : List Tok) (hi : Inv s)
+    (ho : ∀ t ∈ ts, t.isOpen = false) (hneg : negCountList ts = false) (vs : List Val) (p : Int) :
+    step s (.readlist ts) = ({ s with pos := p }, .vals vs) ↔ readSeq s ts = .ok (vs, p) := by
+  rw [step_eq_core s _ (by intro h; cases h), readlist_step_iff, ← readSeq_iff ts s hi ho hneg (vs, p),
+    readList_noopen _ _ _ ho]
+  cases hd : toDTs ts with
+  | error e => simp
+  | ok ds => simp
 
 end BM.C06
